@@ -10,28 +10,19 @@ META = {
     "functions": ["pyrtcm.rtcmmessage.RTCMMessage.__setattr__", ".__init__ (immutable flag)", ".payload", ".identity", ".serialize", ".__str__"],
     "transforms": ["if-conversion", "predication"],
     "shims": ["int", "bin", "chr"],
-    "bounds": {"quick": "one message per family (about 30 identities incl. unknown, reserved, 4076 sub-types without definition, text, MSM, flags), payload bits symbolic; "
+    "bounds": {"quick": "every defined identity plus unknown, reserved and undefined 4076 sub-types, payload bits symbolic; "
                         "attribute names: every existing attribute, payload/identity/ismsm/_immutable/_payload/_unknown, fresh names, and symbolic names of 1..4 free "
                         "characters; assigned value a free integer (so 'equal to the current value' is covered) plus float/bytes/str/None; sequences of two attempts",
                "thorough": "every defined identity; symbolic names up to 8 characters; three attempts"},
     "outside": "object.__setattr__ / __dict__ manipulation that bypasses the class (not attribute assignment)",
     "assumptions": [],
 }
-WALL_BUDGET = {"quick": 600, "thorough": 3 * 3600}
+WALL_BUDGET = {"quick": 480, "thorough": 3 * 3600}
 EXTRA = ["payload", "identity", "ismsm", "_immutable", "_payload", "_payloadi", "_unknown", "_satmap", "_labelmsm", "newattr", "DF999", "x", "__class__"]
 
 
 def jobs(tier, seed):
     ids = [i for i in structs.all_identities() if structs.wellformed(i)]
-    if tier == 'quick':
-        fam = {}
-        for i in ids:
-            k = structs.kind_of(i)
-            key = ('msm', i[3]) if k == 'msm' else ('igs', i[-1]) if i.startswith('4076_') and i != '4076_201' else ('std', i)
-            fam.setdefault(key, i)
-        ids = sorted(set(fam.values()))
-        ids = [i for j, i in enumerate(ids) if not (fam.get(('std', i)) and j % 3)] + ['1005', '1029', '1230']
-        ids = sorted(set(ids))
     out = [('defined', i, tier) for i in ids]
     out += [('unknown', n, tier) for n in (4072, 1070, 999, 4095)] + [('unknown4076', 250, tier), ('unknown4076', 28, tier)]
     return out
